@@ -292,7 +292,8 @@ Definition run_sample (c : case) : bytes :=
 
 (* kind 0: a sequence of records through one long-lived in-process pipeline
    kind 1: a byte stream (events as in C08) through the real multiLineReader into the same pipeline
-   kind 2: the real sample configuration (see above)        kind 3: the child-process agent over TCP *)
+   kind 2: the real sample configuration (see above)        kind 3: the child-process agent over TCP
+   kind 4 / 5: kinds 0 / 1 run on one P so that the pooled LogRecord is handed back (Model/PipelinePool.v) *)
 Definition run_case_C07 (c : case) : bytes :=
   match c_kind c with
   | 2%N => run_sample c
@@ -302,7 +303,7 @@ Definition run_case_C07 (c : case) : bytes :=
     | None => s_cfgerr
     | Some (cfg, ss, zs) =>
       let now := (zarg c 5, zarg c 6) in
-      if (k =? 1)%N then
+      if ((k =? 1) || (k =? 5))%N then
         show_run cfg (conn_run Transforms.tiny_oracles cfg g_init now 0%Z (Framing.decode_events zs ss))
       else
         let ntab := Z.to_nat (hd 0%Z zs) in
